@@ -503,7 +503,14 @@ bool IP::matches_response(const uint8_t* ptr, uint32_t total_sz) const {
         (header_.daddr == ip_ptr->saddr || dst_addr().is_broadcast())) ||
         (dst_addr().is_broadcast() && header_.saddr == 0)) {
 
-        uint32_t sz = (header_size() < total_sz) ? header_size() : total_sz;
+        // skip the reply's own header: it needn't carry the options we sent
+        uint32_t sz = ip_ptr->ihl * sizeof(uint32_t);
+        if (sz < sizeof(ip_header)) {
+            sz = sizeof(ip_header);
+        }
+        if (sz > total_sz) {
+            sz = total_sz;
+        }
         return inner_pdu() ? inner_pdu()->matches_response(ptr + sz, total_sz - sz) : true;
     }
     return false;
